@@ -264,10 +264,16 @@ struct MBody {
 	kerns: Vec<MKern>,
 	/// transaction offset, or the offset this block adds to the running total
 	offset: Sc,
+	/// corruption: the 32 bytes of the offset field (of the transaction, or of the header's total kernel offset)
+	/// are these instead - a byte string that is not a scalar of the group (>= n)
+	offset_raw: Option<Sc>,
 }
 
 /// The reference balance checker, from the property statement, over the openings only.
 fn judge(b: &MBody, as_block: bool) -> Result<(), &'static str> {
+	if b.offset_raw.is_some() {
+		return Err("the offset field is not a scalar of the group: the equation cannot hold for the offset as stated");
+	}
 	for o in &b.outs {
 		if o.pv != o.v || o.pr != o.r {
 			return Err("range proof was made for another commitment");
@@ -396,7 +402,7 @@ impl Forge {
 		TransactionBody::init(Inputs::FeaturesAndCommit(ins), &outs, &kerns, false).expect("body")
 	}
 	fn tx(&mut self, b: &MBody) -> Transaction {
-		Transaction { offset: bf(&b.offset), body: self.body(b) }
+		Transaction { offset: match &b.offset_raw { Some(raw) => BlindingFactor::from_slice(raw), None => bf(&b.offset) }, body: self.body(b) }
 	}
 }
 
@@ -459,6 +465,7 @@ impl World {
 					outs: vec![MOut::new(pv, pr, false)],
 					kerns: vec![MKern::honest(MF::Plain { fee: FEE0 }, k, 900)],
 					offset: off,
+					offset_raw: None,
 				};
 				assert!(judge(&m, false).is_ok());
 				txs.push(forge.tx(&m));
@@ -489,7 +496,10 @@ impl World {
 		header.version = consensus::header_version(header.height);
 		header.timestamp = prev.timestamp + Duration::seconds(60 + (salt % 40) as i64);
 		header.prev_hash = prev.hash();
-		header.total_kernel_offset = bf(&sc_add(&self.prev_total, &m.offset));
+		header.total_kernel_offset = match &m.offset_raw {
+			Some(raw) => BlindingFactor::from_slice(raw),
+			None => bf(&sc_add(&self.prev_total, &m.offset)),
+		};
 		header.pow.total_difficulty = prev.pow.total_difficulty + next.difficulty;
 		header.pow.secondary_scaling = next.secondary_scaling;
 		let mut b = Block { header, body: forge.body(m) };
@@ -626,7 +636,7 @@ fn base_tx(w: &World, s: &Shape) -> MBody {
 		};
 		kerns.push(MKern::honest(feat, k, i as u32));
 	}
-	MBody { ins, outs, kerns, offset }
+	MBody { ins, outs, kerns, offset, offset_raw: None }
 }
 
 /// the transaction plus one coinbase output and kernel claiming subsidy + fees
@@ -696,6 +706,14 @@ fn candidates(base: &MBody, as_block: bool) -> Vec<Cand> {
 			b.offset = ZERO;
 			push("offset-zeroed".into(), "offset".into(), b);
 		}
+		// the offset field holds bytes that are no scalar of the group: all ones, and the group order itself
+		// (which a lenient reader would take for zero)
+		let mut b = base.clone();
+		b.offset_raw = Some([0xffu8; 32]);
+		push("offset-not-a-scalar:all-ones".into(), "offset".into(), b);
+		let mut b = base.clone();
+		b.offset_raw = Some(unlimbs(&N));
+		push("offset-not-a-scalar:group-order".into(), "offset".into(), b);
 	}
 	// kernel dropped / duplicated
 	for i in 0..base.kerns.len() {
@@ -848,6 +866,7 @@ fn model_json(m: &MBody) -> Value {
 		"outputs": m.outs.iter().map(|o| json!({"value": o.v, "blind": hex(&o.r), "coinbase": o.cb, "proof_for_value": o.pv, "proof_for_blind": hex(&o.pr)})).collect::<Vec<_>>(),
 		"kernels": m.kerns.iter().map(|k| json!({"features": format!("{:?}", k.feat), "excess_key": hex(&k.k), "excess_value": k.e, "signed_by": hex(&k.sig.key), "signed_message": format!("{:?}", k.sig.feat)})).collect::<Vec<_>>(),
 		"offset": hex(&m.offset),
+		"offset_field_bytes": m.offset_raw.as_ref().map(|r| hex(r)),
 	})
 }
 
